@@ -18,7 +18,7 @@ namespace Ctl
 variable {α : Type} [Num α] {n : Nat}
 
 theorem hIter_reject_of_not_le {σ : Type} (P : HParams α n) (Kn : HKernel α n) (f : Rhs α n) (ob : Obs σ α n)
-    (s : HState σ α n) (hg : hGuard P s = none) (hne : ¬ (hTrial P Kn f s (hAdjust P s).1).err ≤ P.one) :
+    (s : HState σ α n) (hg : hGuard P s = none) (hne : ¬ (hTrial P Kn f s (hAdjust P s).1 (hAdjust P s).2).err ≤ P.one) :
     ∃ s', hIter P Kn f ob s = .inl s' ∧ s'.x = s.x ∧ s'.y = s.y ∧ s'.reject = true := by
   unfold hIter
   rw [hg]
